@@ -187,6 +187,9 @@ Usage:
 		named[name[1:]] = cli.argvalues[i]
 	}
 	positional := opts.Args
+	if positional == nil {
+		positional = []any{}
+	}
 	for i, v := range opts.JSONArgs {
 		if v != nil {
 			val, _ := newJSONInputIter(strings.NewReader(v.(string)), "--jsonargs").Next()
